@@ -109,3 +109,16 @@ Record wf_env (E : list sdef) : Prop := {
 Definition byvalue_cycle (E : list sdef) : Prop :=
   exists C : N -> Prop, (exists nm, C nm) /\
     forall nm, C nm -> exists d t nm', In d E /\ sname d = nm /\ In t (sfields d) /\ field_dep t = Some nm' /\ C nm'.
+
+(* ---- what fits the implementation's u32 sizes: every array (at any nesting depth inside a
+   field type) and every struct is smaller than 2^32 bytes.  Definitions that do not fit are
+   diagnosed (LayoutError::TooLarge), never laid out. *)
+Fixpoint ty_fits (sl : N -> option (N * N)) (t : ty) : bool :=
+  match t with
+  | TArray t' n => ty_fits sl t' && match ty_sa sl t with Some (s, _) => s <? W32 | None => false end
+  | _ => true
+  end.
+Definition struct_fits (fuel : nat) (E : list sdef) (d : sdef) : Prop :=
+  (forall t, In t (sfields d) -> ty_fits (c_struct_sa fuel E) t = true) /\
+  exists cos s a, c_struct fuel E (sfields d) = Some (cos, s, a) /\ s < W32.
+Definition env_fits (E : list sdef) : Prop := forall d, In d E -> exists fuel, struct_fits fuel E d.
